@@ -7,7 +7,11 @@ Tie    : every generated call is run through md.shrake_rupley (public API, OMP_N
          the Gallina model inside coqc, with the sphere points taken from a shim that includes the repository's
          sasa.cpp.  The float32 areas are turned into integer intervals (relative width EPS, widened by the
          number of sphere points that lie within GUARD nm of a neighbour's surface); for <= 960 points the
-         interval pins the per-atom count exactly.
+         interval pins the per-atom count exactly.  The model is evaluated in two stages (stage 1: guards, radii and
+         every frame's buffer, once per system; stage 2: mapping/-1 overlay/group sums per mode) - Props/C13.v
+         shrake_rupley_two_stage_evaluation proves this is shrake_rupley on the repaired kernel.  Whether today's kernel
+         (buffer carried across a thread's frames) explains a multi-frame result is decided by inverting the carry on the
+         implementation's own previous-frame output and comparing the residual counts with the same model.
 Search : an independent float64 evaluation on the same point set, plus the relations of the property stated
          directly on the implementation (isolated atom, analytic two-sphere cap, residue = sum of atoms,
          subset independence, frame alone = frame in company).
@@ -234,8 +238,8 @@ def gen_calls(ctx):
     rng = ctx.rng
     SYMBOLS.update(ctx.run_impl("sasa_impl.py", {"cases": []})["symbols"])
     quick = ctx.tier == "quick"
-    nsys = 90 if quick else 2500
-    budget = 100.0 if quick else 1500.0          # estimated seconds of vm_compute (spread over 4 processes)
+    nsys = 300 if quick else 4000
+    budget = 380.0 if quick else 3000.0          # estimated seconds of vm_compute (spread over 4 processes)
     pts = sphere_points(ctx)
     groups = []
     skipped = 0
@@ -264,7 +268,7 @@ def gen_calls(ctx):
                 rng.shuffle(sel)
         g = dict(sysd)
         g.update(probe=probe, nsp=nsp, change=change, sel=sel)
-        cost = 2 * est_cost(g, analyse(g, pts[nsp][0]))
+        cost = est_cost(g, analyse(g, pts[nsp][0]))
         if cost > budget:
             skipped += 1
             if budget < 2.0:
@@ -402,7 +406,6 @@ def coq_prelude(pts, used):
     out = ["Open Scope Z_scope."]
     for n in sorted(used):
         out.append("Definition pts%d : list vec := %s." % (n, clist([coq_vec(p) for p in pts[n][1]])))
-    out.append("Definition run (c : call) : result := shrake_rupley true (sched_serial (List.length (c_frames c))) c.")
     return "\n".join(out)
 
 
@@ -469,9 +472,13 @@ def coq_check(ctx, pts, units, procs=4):
                  "Require Import MD.Sched.ParFor MD.Sasa.Model MD.Gen.SasaTables.", coq_prelude(pts, used)]
         checks = []
         for i in idx:
-            lines.append("Definition r%d : result := Eval vm_compute in (run %s)." % (i, units[i][2]))
-            for (job, exp) in units[i][3]:
-                checks.append("(%d%%nat, result_ok r%d %s)" % (job, i, exp))
+            # stage 1 (guards, radii, every frame's buffer) once per system; stage 2 (mapping, -1 overlay, group sums)
+            # per mode.  Props/C13.v shrake_rupley_two_stage_evaluation: this IS shrake_rupley on the repaired kernel.
+            lines.append("Definition c%d : call := %s." % (i, units[i][2]))
+            lines.append("Definition p%d : pre := Eval vm_compute in (shrake_rupley_pre c%d)." % (i, i))
+            for (job, mode, exp) in units[i][3]:
+                md = "AtomMode" if mode == "atom" else "ResidueMode"
+                checks.append("(%d%%nat, result_ok (shrake_rupley_post (set_mode %s c%d) p%d) %s)" % (job, md, i, i, exp))
         lines.append("Definition checks : list (nat * bool) := [\n%s\n]." % ";\n".join(checks))
         lines.append('Definition tag := "MISMATCH"%string.')
         lines.append("Eval vm_compute in (tag, List.length checks, map fst (filter (fun c => negb (snd c)) checks)).")
@@ -511,21 +518,21 @@ def run_groups(ctx, groups):
     for gi, g in enumerate(groups):
         an = analyses[gi]
         excluded += int(sum(int(a["amb"].sum()) for a in an))
+        checks = []
         for mode in ("atom", "residue"):
-            checks = []
             for thr in THREADS:
                 o = res[(gi, mode, thr)]
                 if "err" in o:
                     jobs.append((gi, mode, thr, "fix"))
-                    checks.append((len(jobs) - 1, "(inr %s)" % cnat(ERRNUM.get(o["err"], 9))))
+                    checks.append((len(jobs) - 1, mode, "(inr %s)" % cnat(ERRNUM.get(o["err"], 9))))
                     continue
                 jobs.append((gi, mode, thr, "fix"))
-                checks.append((len(jobs) - 1, coq_expected(intervals(g, mode, o["rows"], an, g["nsp"]))))
+                checks.append((len(jobs) - 1, mode, coq_expected(intervals(g, mode, o["rows"], an, g["nsp"]))))
                 if thr == "1" and len(g["xyz"]) > 1 and "rows" in res[(gi, "atom", thr)]:
                     jobs.append((gi, mode, thr, "cur"))
-                    checks.append((len(jobs) - 1, coq_expected(intervals(g, mode, o["rows"], an, g["nsp"],
-                                                                         carry_rows=res[(gi, "atom", thr)]["rows"]))))
-            units.append((est_cost(g, an), g["nsp"], coq_call(g, mode), checks))
+                    checks.append((len(jobs) - 1, mode, coq_expected(intervals(g, mode, o["rows"], an, g["nsp"],
+                                                                               carry_rows=res[(gi, "atom", thr)]["rows"]))))
+        units.append((est_cost(g, an), g["nsp"], coq_call(g, "atom"), checks))
     ctx.log("model evaluations: %d, estimated %.0f s of vm_compute" % (len(units), sum(u[0] for u in units)))
     bad, errs = coq_check(ctx, pts, units)
     ctx.log("model evaluations done")
@@ -609,7 +616,7 @@ def sentinel(ctx, groups, res, analyses):
         n = len(g["elems"])
         rf = radii_float(g)
         const = 4.0 * math.pi / g["nsp"]
-        sel = list(range(n)) if g["sel"] is None else sorted(set(g["sel"]))
+        sel = list(range(n)) if g["sel"] is None else sorted(i for i in set(g["sel"]) if 0 <= i < n)
         for thr in THREADS:
             a = res.get((gi, "atom", thr))
             r = res.get((gi, "residue", thr))
@@ -718,7 +725,7 @@ def subset_and_frame_checks(ctx, groups, res):
         if not a or "rows" not in a or "rows" not in v:
             continue
         n = len(g["elems"])
-        sel = list(range(n)) if g["sel"] is None else sorted(set(g["sel"]))
+        sel = list(range(n)) if g["sel"] is None else sorted(i for i in set(g["sel"]) if 0 <= i < n)
         if what == "all":
             for fi, (r_sel, r_all) in enumerate(zip(a["rows"], v["rows"])):
                 bad = [j for j in sel if r_sel[j] != r_all[j]]
@@ -751,7 +758,7 @@ def clash_probe(ctx):
         died = False
     except RuntimeError as e:
         died = "rc=1" in str(e)
-    bad, errs = coq_check(ctx, pts, [(0.3, 7, coq_call(g, "atom"), [(0, "(inr 4%nat)" if died else "(inr 0%nat)")])], procs=1)
+    bad, errs = coq_check(ctx, pts, [(0.3, 7, coq_call(g, "atom"), [(0, "atom", "(inr 4%nat)" if died else "(inr 0%nat)")])], procs=1)
     ctx.count(case_of(g, "atom", "1"), nontrivial=False, bucket="clash-guard")
     if errs or bad:
         ctx.break_("correspondence:sasa-model[clash guard]", "implementation %s on atoms 4e-6 nm apart, model disagrees %s"
